@@ -26,6 +26,7 @@ type Opts struct {
 	Seed       int64
 	Trace      bool
 	ConcCap    int
+	NoRaces    bool            // the harness' property does not include race freedom and its fakes cannot reproduce the timing natively
 	Background map[string]bool // ticker-driven background loops of kevo that are started as (daemon) threads
 }
 
@@ -183,7 +184,9 @@ func explore(m *Machine, fn *ssa.Function, o *Opts) *HarnessResult {
 								ab = fmt.Sprint("abort while recording races: ", y)
 							}
 						}()
-						r.raceViolations()
+						if !o.NoRaces {
+							r.raceViolations()
+						}
 					}()
 				}
 				// sample terminated, non-violating paths for the evidence and for native validation
